@@ -1,7 +1,7 @@
 (* proofs/C09Main.v — C09 assembled: the model of process.Typecheck = the caller/worker protocol
    (TcDriver) run on the worker's computation tc_program p (TcTop). *)
 Require Import Grits.Base Grits.STypes Grits.Forms Grits.Infer Grits.TcDeps Grits.Expand Grits.Tc Grits.TcTop
-               Grits.TcDriver Grits.proofs.TcEnv Grits.proofs.TcTotal Grits.proofs.TcDriverProofs Grits.proofs.TcInferFuel.
+               Grits.TcDriver Grits.proofs.TcEnv Grits.proofs.TcTotal Grits.proofs.TcDriverProofs Grits.proofs.TcInferFuel Grits.proofs.TcEqFuel.
 
 (* the two facts about package `types` the proof relies on (C08 and mode inference) *)
 Definition equal_terminates_stmt : Prop := forall D s t,
@@ -9,9 +9,12 @@ Definition equal_terminates_stmt : Prop := forall D s t,
 Definition add_missing_total_stmt : Prop := forall D t,
   sanity_typedefs D = Ok true -> exists t', add_missing D t = Ok t'.
 
-(* the second one is proved (proofs/TcInferFuel.v): infer_fuel suffices *)
+(* both are proved for the current definitions of package `types` in the model:
+   proofs/TcInferFuel.v (infer_fuel suffices) and proofs/TcEqFuel.v (eq_fuel suffices) *)
 Lemma add_missing_total_holds : add_missing_total_stmt.
 Proof. intros D t _. apply add_missing_total. Qed.
+Lemma equal_terminates_holds : equal_terminates_stmt.
+Proof. intros D s t _ _ _. apply equal_type_total. Qed.
 
 Theorem tc_total_1 : equal_terminates_stmt -> forall p, parsed p ->
   (forall w, typecheck p <> RejectInternal w) /\ (forall w, typecheck p <> Diverge w).
@@ -54,3 +57,12 @@ Proof.
   - unfold typecheck. unfold typecheck_returns in Hr0. destruct (tc_program p) eqn:E; cbn in Hr0, Hsafe;
       inversion Hr0; subst; try contradiction; split; intros H; try discriminate; try reflexivity; congruence.
 Qed.
+
+(* premise-free versions *)
+Theorem tc_total_closed : forall p, parsed p ->
+  (forall w, typecheck p <> RejectInternal w) /\ (forall w, typecheck p <> Diverge w).
+Proof. exact (tc_total_1 equal_terminates_holds). Qed.
+Theorem tc_total_all_closed : forall p,
+  (forall w, typecheck p <> RejectInternal w) /\ (forall w, typecheck p <> Diverge w).
+Proof. exact (tc_total_all_1 equal_terminates_holds). Qed.
+Definition typecheck_total_closed := typecheck_total equal_terminates_holds.
